@@ -11,7 +11,9 @@ import (
 	"fmt"
 	"io"
 	"net"
+	"os"
 	"strings"
+	"sync/atomic"
 	"time"
 
 	"github.com/Tnze/go-mc/bot"
@@ -44,7 +46,20 @@ type entry struct {
 	// hostile values (negative / larger than the remaining input) MUST be reported as errors.
 	gen func(r *vm.Rand) (valid []byte, prefixes []prefix)
 	run func(in []byte) error
+	// dec makes ONE receiver and returns the call that decodes into it: calling the result twice decodes twice
+	// into the same object, from whatever reader it is handed. run (when not given) is dec()(bytes.Reader).
+	dec func() func(src io.Reader) error
 }
+
+// recvEntry: an entry whose receiver is made by mk and filled by read.
+func recvEntry[T any](name string, gen func(r *vm.Rand) ([]byte, []prefix), mk func() T, read func(v T, src io.Reader) error) entry {
+	return entry{name: name, gen: gen, dec: func() func(io.Reader) error {
+		v := mk()
+		return func(src io.Reader) error { return read(v, src) }
+	}}
+}
+
+func lenientEntry(e entry) entry { e.lenient = true; return e }
 
 type prefix struct {
 	off  int
@@ -65,10 +80,9 @@ func fieldEntry[T any, PT interface {
 	*T
 	pk.FieldDecoder
 }](name string, gen func(r *vm.Rand) ([]byte, []prefix)) entry {
-	return entry{name: name, gen: gen, run: func(in []byte) error {
+	return entry{name: name, gen: gen, dec: func() func(io.Reader) error {
 		v := new(T)
-		_, err := PT(v).ReadFrom(rd(in))
-		return err
+		return func(src io.Reader) error { _, err := PT(v).ReadFrom(src); return err }
 	}}
 }
 
@@ -76,17 +90,25 @@ func str(r *vm.Rand) string {
 	return []string{"", "a", "minecraft:stone", "héllo wörld", strings.Repeat("x", 130)}[r.Intn(5)]
 }
 
-// buildChunk makes a chunk whose encoding consists mostly of small bytes: at most 8 distinct states with ids
-// below 128 per section (4-bit indices below 8), a single biome, zero height maps. A hostile VarInt written
-// into such an encoding shifts the parse, but what the decoder then reads as lengths stays small - the inputs
-// test the decoders, not the allocator (declared lengths above 2^24 are outside the workload, see DESIGN).
+// buildChunk makes a chunk whose sections mostly hold at most 8 distinct states with small ids (single value or
+// linear palette, a single biome, zero height maps): a hostile VarInt written into such an encoding shifts the
+// parse, but what the decoder then reads as lengths stays small. In every fourth chunk one section is wider: 20 or
+// 60 states (hash palette) or 300 (direct form), and its biomes use a linear palette or the direct form, so that
+// the mutations also start from those encodings (one section only: a direct section takes 8 KiB).
 func buildChunk(r *vm.Rand, secs int) *level.Chunk {
 	c := level.EmptyChunk(secs)
+	wide := -1
+	if r.Intn(4) == 0 {
+		wide = r.Intn(secs)
+	}
 	for si := range c.Sections {
-		k := []int{0, 1, 3, 7}[r.Intn(4)]
-		vals := make([]int, 0, 8)
+		k, idMax := []int{0, 1, 3, 7}[r.Intn(4)], 100
+		if si == wide {
+			k, idMax = []int{20, 60, 300}[r.Intn(3)], 2000
+		}
+		vals := make([]int, 0, k)
 		for j := 0; j < k; j++ {
-			vals = append(vals, r.Intn(100))
+			vals = append(vals, r.Intn(idMax))
 		}
 		for j := 0; j < k*3; j++ {
 			c.Sections[si].SetBlock(r.Intn(4096), level.BlocksState(vals[r.Intn(len(vals))]))
@@ -94,6 +116,11 @@ func buildChunk(r *vm.Rand, secs int) *level.Chunk {
 		if r.Bool() {
 			c.Sections[si].Biomes.Set(0, level.BiomesState(r.Intn(60)))
 			c.Sections[si].Biomes.Set(0, 0)
+		}
+		if si == wide {
+			for j, n := 0, []int{2, 6, 12}[r.Intn(3)]; j < n; j++ {
+				c.Sections[si].Biomes.Set(r.Intn(64), level.BiomesState(j*5))
+			}
 		}
 	}
 	for j := r.Intn(3); j > 0; j-- {
@@ -110,10 +137,23 @@ func entries(nStates, nBiomes int) []entry {
 	blocksKind := refwire.PalKind{Blocks: true, RegistrySize: nStates}
 	biomesKind := refwire.PalKind{Blocks: false, RegistrySize: nBiomes}
 	genPal := func(r *vm.Rand, k refwire.PalKind, length int) ([]byte, []prefix) {
-		nv := []int{1, 2, 5, 8}[r.Intn(4)]
+		// up to 8 distinct values: single value / linear palette; 17..200: the hash palette (5..8 bits, blocks only);
+		// beyond (300 block states, 9 or 40 biomes): the registry-wide direct form
+		nvs, mul := []int{1, 2, 5, 8, 17, 40, 200, 300}, 7
+		if !k.Blocks {
+			nvs, mul = []int{1, 2, 5, 8, 9, 40}, 1
+		}
+		nv := nvs[r.Intn(4)]
+		if r.Intn(4) == 0 {
+			nv = nvs[r.Range(4, len(nvs)-1)] // the wider forms take 4..8 KiB: every fourth encoding
+		}
 		vals := make([]int, length)
 		for i := range vals {
-			vals[i] = r.Intn(nv) * 7 // small ids, indices below 8: the encoding has few bytes >= 0x80
+			if i < nv {
+				vals[i] = i * mul // every one of the nv values occurs
+			} else {
+				vals[i] = r.Intn(nv) * mul
+			}
 		}
 		w := refwire.WritePaletted(vals, k)
 		// locate the prefixes: bits byte, then (single: value) / (indirect: palette length + entries) / (direct: nothing), then data length
@@ -134,12 +174,20 @@ func entries(nStates, nBiomes int) []entry {
 			}
 		}
 		ps = append(ps, prefix{off, "data-array-length"})
+		form := info.Form
+		if form == "indirect" {
+			form = "linear"
+			if k.Blocks && info.Width > 4 {
+				form = "hash"
+			}
+		}
+		coverHook(fmt.Sprintf("gen.palette.%s.%s", map[bool]string{true: "blocks", false: "biomes"}[k.Blocks], form))
 		return w, ps
 	}
 	var es []entry
 	for _, th := range []int{-1, 0, 256} {
 		th := th
-		es = append(es, entry{name: fmt.Sprintf("Packet.UnPack(threshold=%d)", th), gen: func(r *vm.Rand) ([]byte, []prefix) {
+		es = append(es, recvEntry(fmt.Sprintf("Packet.UnPack(threshold=%d)", th), func(r *vm.Rand) ([]byte, []prefix) {
 			p := pk.Packet{ID: int32(r.Intn(300)), Data: r.Bytes([]int{0, 3, 255, 256, 257, 600}[r.Intn(6)])}
 			if r.Bool() {
 				for i := range p.Data {
@@ -154,10 +202,10 @@ func entries(nStates, nBiomes int) []entry {
 				ps = append(ps, prefix{n, "compressed-data-length"})
 			}
 			return b.Bytes(), ps
-		}, run: func(in []byte) error {
-			var p pk.Packet
-			return p.UnPack(rd(in), th)
-		}})
+		}, func() *pk.Packet { return new(pk.Packet) }, func(p *pk.Packet, src io.Reader) error { return p.UnPack(src, th) }))
+	}
+	aryEntry := func(name string, gen func(r *vm.Rand) ([]byte, []prefix), mk func() func(io.Reader) error) entry {
+		return entry{name: name, gen: gen, dec: mk}
 	}
 	es = append(es,
 		fieldEntry[pk.String]("String", func(r *vm.Rand) ([]byte, []prefix) { return wbuf(pk.String(str(r))), []prefix{{0, "string-length"}} }),
@@ -170,165 +218,168 @@ func entries(nStates, nBiomes int) []entry {
 		fieldEntry[pk.UUID]("UUID", func(r *vm.Rand) ([]byte, []prefix) { return r.Bytes(16), nil }),
 		fieldEntry[pk.Position]("Position", func(r *vm.Rand) ([]byte, []prefix) { return r.Bytes(8), nil }),
 		fieldEntry[pk.PluginMessageData]("PluginMessageData", func(r *vm.Rand) ([]byte, []prefix) { return r.Bytes(r.Intn(30)), nil }),
-		entry{name: "Ary[VarInt]ofString", gen: func(r *vm.Rand) ([]byte, []prefix) {
+		aryEntry("Ary[VarInt]ofString", func(r *vm.Rand) ([]byte, []prefix) {
 			return wbuf(pk.Array([]pk.String{"a", pk.String(str(r)), "c"})), []prefix{{0, "array-length"}, {1, "string-length"}}
-		}, run: func(in []byte) error { var v []pk.String; _, err := pk.Array(&v).ReadFrom(rd(in)); return err }},
-		entry{name: "Ary[Short]ofByteArray", gen: func(r *vm.Rand) ([]byte, []prefix) {
+		}, func() func(io.Reader) error {
+			var v []pk.String
+			return func(src io.Reader) error { _, err := pk.Array(&v).ReadFrom(src); return err }
+		}),
+		aryEntry("Ary[Short]ofByteArray", func(r *vm.Rand) ([]byte, []prefix) {
 			return wbuf(pk.Ary[pk.Short]{Ary: []pk.ByteArray{{1, 2}, r.Bytes(5)}}), nil
-		}, run: func(in []byte) error {
+		}, func() func(io.Reader) error {
 			var v []pk.ByteArray
-			_, err := pk.Ary[pk.Short]{Ary: &v}.ReadFrom(rd(in))
-			return err
-		}},
-		entry{name: "Ary[Byte]ofLong", gen: func(r *vm.Rand) ([]byte, []prefix) { return wbuf(pk.Ary[pk.Byte]{Ary: []pk.Long{1, 2, 3}}), nil }, run: func(in []byte) error {
+			return func(src io.Reader) error { _, err := pk.Ary[pk.Short]{Ary: &v}.ReadFrom(src); return err }
+		}),
+		aryEntry("Ary[Byte]ofLong", func(r *vm.Rand) ([]byte, []prefix) { return wbuf(pk.Ary[pk.Byte]{Ary: []pk.Long{1, 2, 3}}), nil }, func() func(io.Reader) error {
 			var v []pk.Long
-			_, err := pk.Ary[pk.Byte]{Ary: &v}.ReadFrom(rd(in))
-			return err
-		}},
-		entry{name: "Ary[Int]ofVarInt", gen: func(r *vm.Rand) ([]byte, []prefix) { return wbuf(pk.Ary[pk.Int]{Ary: []pk.VarInt{1, 2, 3}}), nil }, run: func(in []byte) error {
+			return func(src io.Reader) error { _, err := pk.Ary[pk.Byte]{Ary: &v}.ReadFrom(src); return err }
+		}),
+		aryEntry("Ary[Int]ofVarInt", func(r *vm.Rand) ([]byte, []prefix) { return wbuf(pk.Ary[pk.Int]{Ary: []pk.VarInt{1, 2, 3}}), nil }, func() func(io.Reader) error {
 			var v []pk.VarInt
-			_, err := pk.Ary[pk.Int]{Ary: &v}.ReadFrom(rd(in))
-			return err
-		}},
-		entry{name: "Ary[VarLong]ofUUID", gen: func(r *vm.Rand) ([]byte, []prefix) { return wbuf(pk.Ary[pk.VarLong]{Ary: []pk.UUID{{1}, {2}}}), nil }, run: func(in []byte) error {
+			return func(src io.Reader) error { _, err := pk.Ary[pk.Int]{Ary: &v}.ReadFrom(src); return err }
+		}),
+		aryEntry("Ary[VarLong]ofUUID", func(r *vm.Rand) ([]byte, []prefix) { return wbuf(pk.Ary[pk.VarLong]{Ary: []pk.UUID{{1}, {2}}}), nil }, func() func(io.Reader) error {
 			var v []pk.UUID
-			_, err := pk.Ary[pk.VarLong]{Ary: &v}.ReadFrom(rd(in))
-			return err
-		}},
-		entry{name: "Tuple(Option,Opt,NBTField)", gen: func(r *vm.Rand) ([]byte, []prefix) {
+			return func(src io.Reader) error { _, err := pk.Ary[pk.VarLong]{Ary: &v}.ReadFrom(src); return err }
+		}),
+		aryEntry("Tuple(Option,Opt,NBTField)", func(r *vm.Rand) ([]byte, []prefix) {
 			return wbuf(pk.Option[pk.String, *pk.String]{Has: true, Val: "s"}, pk.Boolean(true), pk.ByteArray{1, 2, 3}, pk.NBT(map[string]any{"k": "v", "n": int32(r.Intn(9))})), nil
-		}, run: func(in []byte) error {
+		}, func() func(io.Reader) error {
 			var o pk.Option[pk.String, *pk.String]
 			var has pk.Boolean
 			var ba pk.ByteArray
 			var m map[string]any
-			_, err := pk.Tuple{&o, &has, pk.Opt{Has: &has, Field: &ba}, pk.NBTField{V: &m, AllowUnknownFields: true}}.ReadFrom(rd(in))
-			return err
-		}},
-		entry{name: "BitStorage.ReadFrom+Fix", gen: func(r *vm.Rand) ([]byte, []prefix) {
-			bs := level.NewBitStorage(5, 4096, nil)
-			for i := 0; i < 20; i++ {
-				bs.Set(r.Intn(4096), r.Intn(4))
-			}
-			return wbuf(bs), []prefix{{0, "data-array-length"}}
-		}, run: func(in []byte) error {
-			bs := level.NewBitStorage(5, 4096, nil)
-			if _, err := bs.ReadFrom(rd(in)); err != nil {
+			return func(src io.Reader) error {
+				_, err := pk.Tuple{&o, &has, pk.Opt{Has: &has, Field: &ba}, pk.NBTField{V: &m, AllowUnknownFields: true}}.ReadFrom(src)
 				return err
 			}
-			return bs.Fix(5)
-		}},
-		entry{name: "PaletteContainer[blocks].ReadFrom(fresh)", gen: func(r *vm.Rand) ([]byte, []prefix) { return genPal(r, blocksKind, 4096) }, run: func(in []byte) error {
-			_, err := level.NewStatesPaletteContainer(4096, 0).ReadFrom(rd(in))
-			return err
-		}},
-		entry{name: "PaletteContainer[blocks].ReadFrom(used)", gen: func(r *vm.Rand) ([]byte, []prefix) { return genPal(r, blocksKind, 4096) }, run: func(in []byte) error {
-			pc := level.NewStatesPaletteContainer(4096, 0)
-			for i := 0; i < 40; i++ {
-				pc.Set(i, level.BlocksState(i*3))
+		}),
+		// The first three bytes of this entry's input are the test's own parameters, not peer bytes: which width
+		// Fix is called with, how many values the storage holds and what the storage held before (see bitStorageDec).
+		entry{name: "BitStorage.ReadFrom+Fix", gen: func(r *vm.Rand) ([]byte, []prefix) {
+			hdr := []byte{byte(r.Intn(len(bsBits))), byte(r.Intn(len(bsLens))), byte(r.Intn(12))}
+			bits, length := bsConfig(hdr[0], hdr[1])
+			coverHook(fmt.Sprintf("gen.bitstorage.bits=%d", bits))
+			bs := level.NewBitStorage(bits, length, nil)
+			for i := 0; i < 20 && bits > 0 && length > 0; i++ {
+				bs.Set(r.Intn(length), r.Intn(2))
 			}
-			_, err := pc.ReadFrom(rd(in))
-			return err
-		}},
-		entry{name: "PaletteContainer[biomes].ReadFrom", gen: func(r *vm.Rand) ([]byte, []prefix) { return genPal(r, biomesKind, 64) }, run: func(in []byte) error {
-			_, err := level.NewBiomesPaletteContainer(64, 0).ReadFrom(rd(in))
-			return err
-		}},
-		entry{name: "Section.ReadFrom", gen: func(r *vm.Rand) ([]byte, []prefix) { c := buildChunk(r, 1); return wbuf(&c.Sections[0]), nil }, run: func(in []byte) error {
-			c := level.EmptyChunk(1)
-			_, err := c.Sections[0].ReadFrom(rd(in))
-			return err
-		}},
-		entry{name: "BlockEntity.ReadFrom", gen: func(r *vm.Rand) ([]byte, []prefix) {
+			return append(hdr, wbuf(bs)...), []prefix{{3, "data-array-length"}}
+		}, dec: bitStorageDec},
+		recvEntry("PaletteContainer[blocks].ReadFrom(fresh)", func(r *vm.Rand) ([]byte, []prefix) { return genPal(r, blocksKind, 4096) },
+			func() *level.PaletteContainer[level.BlocksState] { return level.NewStatesPaletteContainer(4096, 0) },
+			func(pc *level.PaletteContainer[level.BlocksState], src io.Reader) error { _, err := pc.ReadFrom(src); return err }),
+		recvEntry("PaletteContainer[blocks].ReadFrom(used)", func(r *vm.Rand) ([]byte, []prefix) { return genPal(r, blocksKind, 4096) },
+			usedStatesContainer(),
+			func(pc *level.PaletteContainer[level.BlocksState], src io.Reader) error { _, err := pc.ReadFrom(src); return err }),
+		recvEntry("PaletteContainer[biomes].ReadFrom", func(r *vm.Rand) ([]byte, []prefix) { return genPal(r, biomesKind, 64) },
+			func() *level.PaletteContainer[level.BiomesState] { return level.NewBiomesPaletteContainer(64, 0) },
+			func(pc *level.PaletteContainer[level.BiomesState], src io.Reader) error { _, err := pc.ReadFrom(src); return err }),
+		recvEntry("Section.ReadFrom", func(r *vm.Rand) ([]byte, []prefix) { c := buildChunk(r, 1); return wbuf(&c.Sections[0]), nil },
+			func() *level.Chunk { return level.EmptyChunk(1) },
+			func(c *level.Chunk, src io.Reader) error { _, err := c.Sections[0].ReadFrom(src); return err }),
+		fieldEntry[level.BlockEntity]("BlockEntity.ReadFrom", func(r *vm.Rand) ([]byte, []prefix) {
 			c := buildChunk(r, 1)
 			if len(c.BlockEntity) == 0 {
 				c.BlockEntity = []level.BlockEntity{{Data: nbt.RawMessage{Type: nbt.TagCompound, Data: []byte{0}}}}
 			}
 			return wbuf(c.BlockEntity[0]), nil
-		}, run: func(in []byte) error { var be level.BlockEntity; _, err := be.ReadFrom(rd(in)); return err }},
-		entry{name: "chat.Message.ReadFrom(NBT)", gen: func(r *vm.Rand) ([]byte, []prefix) {
+		}),
+		fieldEntry[chat.Message]("chat.Message.ReadFrom(NBT)", func(r *vm.Rand) ([]byte, []prefix) {
+			if r.Bool() {
+				return nbtComponentShape(r), nil // hand-built documents of the other shapes the decoder has branches for
+			}
 			m := chat.Message{Text: str(r), Bold: r.Bool(), Color: "gold", Extra: []chat.Message{chat.Text("x")}}
 			if r.Bool() {
 				m = chat.TranslateMsg("chat.type.text", chat.Text("a"), chat.Text(str(r)))
 			}
 			return wbuf(m), nil
-		}, run: func(in []byte) error { var m chat.Message; _, err := m.ReadFrom(rd(in)); return err }},
-		entry{name: "chat.JsonMessage.ReadFrom", gen: func(r *vm.Rand) ([]byte, []prefix) {
+		}),
+		fieldEntry[chat.JsonMessage]("chat.JsonMessage.ReadFrom", func(r *vm.Rand) ([]byte, []prefix) {
+			if r.Intn(3) == 0 {
+				return wbuf(pk.String(jsonComponentShape(r))), []prefix{{0, "string-length"}}
+			}
 			return wbuf(chat.JsonMessage(chat.Message{Text: str(r), Italic: true, Extra: []chat.Message{chat.Text("y")}})), []prefix{{0, "string-length"}}
-		}, run: func(in []byte) error { var m chat.JsonMessage; _, err := m.ReadFrom(rd(in)); return err }},
-		entry{name: "json.Unmarshal(chat.Message)", gen: func(r *vm.Rand) ([]byte, []prefix) {
+		}),
+		recvEntry("json.Unmarshal(chat.Message)", func(r *vm.Rand) ([]byte, []prefix) {
+			if r.Intn(3) == 0 {
+				return []byte(jsonComponentShape(r)), nil
+			}
 			b, _ := json.Marshal(chat.Message{Text: str(r), Translate: "a.b", With: chat.TranslateArgs{chat.Text("q"), "s"}, HoverEvent: chat.ShowText(chat.Text("h"))})
 			return b, nil
-		}, run: func(in []byte) error { var m chat.Message; return json.Unmarshal(in, &m) }},
-		entry{name: "chat.Type.ReadFrom", gen: func(r *vm.Rand) ([]byte, []prefix) {
+		}, func() *chat.Message { return new(chat.Message) }, func(m *chat.Message, src io.Reader) error {
+			in, _ := io.ReadAll(src)
+			return json.Unmarshal(in, m)
+		}),
+		fieldEntry[chat.Type]("chat.Type.ReadFrom", func(r *vm.Rand) ([]byte, []prefix) {
 			t := chat.Type{ID: int32(r.Intn(9)), SenderName: chat.Text(str(r))}
 			if r.Bool() {
 				tm := chat.Text("target")
 				t.TargetName = &tm
 			}
 			return wbuf(&t), nil
-		}, run: func(in []byte) error { var t chat.Type; _, err := t.ReadFrom(rd(in)); return err }},
-		entry{name: "user.Property.ReadFrom", gen: func(r *vm.Rand) ([]byte, []prefix) {
+		}),
+		fieldEntry[user.Property]("user.Property.ReadFrom", func(r *vm.Rand) ([]byte, []prefix) {
 			return wbuf(user.Property{Name: "textures", Value: str(r), Signature: "sig"}), []prefix{{0, "string-length"}}
-		}, run: func(in []byte) error { var p user.Property; _, err := p.ReadFrom(rd(in)); return err }},
-		entry{name: "user.PublicKey.ReadFrom", lenient: true, gen: func(r *vm.Rand) ([]byte, []prefix) {
+		}),
+		lenientEntry(fieldEntry[user.PublicKey]("user.PublicKey.ReadFrom", func(r *vm.Rand) ([]byte, []prefix) {
 			return wbuf(pk.Long(r.Int64B()), pk.ByteArray(r.Bytes(r.Intn(200))), pk.ByteArray(r.Bytes(256))), []prefix{{8, "byte-array-length"}}
-		}, run: func(in []byte) error { var p user.PublicKey; _, err := p.ReadFrom(rd(in)); return err }},
-		entry{name: "sign.PackedMessageBody.ReadFrom", gen: func(r *vm.Rand) ([]byte, []prefix) {
+		})),
+		fieldEntry[sign.PackedMessageBody]("sign.PackedMessageBody.ReadFrom", func(r *vm.Rand) ([]byte, []prefix) {
 			return wbuf(pk.String(str(r)), pk.Long(1), pk.Long(2), pk.VarInt(1), pk.VarInt(5)), []prefix{{0, "string-length"}}
-		}, run: func(in []byte) error { var m sign.PackedMessageBody; _, err := m.ReadFrom(rd(in)); return err }},
-		entry{name: "sign.HistoryMessage.ReadFrom", gen: func(r *vm.Rand) ([]byte, []prefix) { return wbuf(pk.UUID{1}, pk.ByteArray(r.Bytes(20))), []prefix{{16, "byte-array-length"}} }, run: func(in []byte) error {
-			var m sign.HistoryMessage
-			_, err := m.ReadFrom(rd(in))
-			return err
-		}},
-		entry{name: "sign.HistoryUpdate.ReadFrom", gen: func(r *vm.Rand) ([]byte, []prefix) { return wbuf(pk.VarInt(3), pk.NewFixedBitSet(20)), nil }, run: func(in []byte) error {
-			var m sign.HistoryUpdate
-			_, err := m.ReadFrom(rd(in))
-			return err
-		}},
-		entry{name: "sign.Session.ReadFrom", lenient: true, gen: func(r *vm.Rand) ([]byte, []prefix) {
+		}),
+		fieldEntry[sign.HistoryMessage]("sign.HistoryMessage.ReadFrom", func(r *vm.Rand) ([]byte, []prefix) {
+			return wbuf(pk.UUID{1}, pk.ByteArray(r.Bytes(20))), []prefix{{16, "byte-array-length"}}
+		}),
+		fieldEntry[sign.HistoryUpdate]("sign.HistoryUpdate.ReadFrom", func(r *vm.Rand) ([]byte, []prefix) { return wbuf(pk.VarInt(3), pk.NewFixedBitSet(20)), nil }),
+		lenientEntry(fieldEntry[sign.Session]("sign.Session.ReadFrom", func(r *vm.Rand) ([]byte, []prefix) {
 			return wbuf(pk.UUID{3}, pk.Long(5), pk.ByteArray(r.Bytes(40)), pk.ByteArray(r.Bytes(30))), nil
-		}, run: func(in []byte) error { var m sign.Session; _, err := m.ReadFrom(rd(in)); return err }},
-		entry{name: "sign.FilterMask.ReadFrom", gen: func(r *vm.Rand) ([]byte, []prefix) { return wbuf(pk.VarInt(2), pk.BitSet{1, 2}), nil }, run: func(in []byte) error {
-			var m sign.FilterMask
-			_, err := m.ReadFrom(rd(in))
-			return err
-		}},
+		})),
+		fieldEntry[sign.FilterMask]("sign.FilterMask.ReadFrom", func(r *vm.Rand) ([]byte, []prefix) { return wbuf(pk.VarInt(2), pk.BitSet{1, 2}), nil }),
 	)
 	for _, secs := range []int{1, 4, 24} {
 		secs := secs
-		es = append(es, entry{name: fmt.Sprintf("Chunk.ReadFrom(%d sections)", secs), gen: func(r *vm.Rand) ([]byte, []prefix) { return wbuf(buildChunk(r, secs)), nil }, run: func(in []byte) error {
-			_, err := level.EmptyChunk(secs).ReadFrom(rd(in))
-			return err
-		}})
-		es = append(es, entry{name: fmt.Sprintf("Chunk.PutData(%d sections)", secs), gen: func(r *vm.Rand) ([]byte, []prefix) { d, _ := buildChunk(r, secs).Data(); return d, nil }, run: func(in []byte) error {
-			return level.EmptyChunk(secs).PutData(in)
-		}})
+		es = append(es, recvEntry(fmt.Sprintf("Chunk.ReadFrom(%d sections)", secs), func(r *vm.Rand) ([]byte, []prefix) { return wbuf(buildChunk(r, secs)), nil },
+			func() *level.Chunk { return level.EmptyChunk(secs) }, func(c *level.Chunk, src io.Reader) error { _, err := c.ReadFrom(src); return err }))
+		es = append(es, recvEntry(fmt.Sprintf("Chunk.PutData(%d sections)", secs), func(r *vm.Rand) ([]byte, []prefix) { d, _ := buildChunk(r, secs).Data(); return d, nil },
+			func() *level.Chunk { return level.EmptyChunk(secs) }, func(c *level.Chunk, src io.Reader) error {
+				in, _ := io.ReadAll(src)
+				return c.PutData(in)
+			}))
 	}
 	// height maps whose long count does not match the section count
-	es = append(es, entry{name: "Chunk.ReadFrom(foreign height maps)", lenient: true, gen: func(r *vm.Rand) ([]byte, []prefix) {
+	es = append(es, lenientEntry(recvEntry("Chunk.ReadFrom(foreign height maps)", func(r *vm.Rand) ([]byte, []prefix) {
 		return wbuf(buildChunk(r, []int{1, 2, 8, 24}[r.Intn(4)])), nil
-	}, run: func(in []byte) error { _, err := level.EmptyChunk(4).ReadFrom(rd(in)); return err }})
+	}, func() *level.Chunk { return level.EmptyChunk(4) }, func(c *level.Chunk, src io.Reader) error { _, err := c.ReadFrom(src); return err })))
 	// registries and tags
 	regs := registry.NewNetworkCodec()
 	addReg := func(name string, codec registry.RegistryCodec, sample any) {
 		es = append(es, entry{name: "Registry[" + name + "].ReadFrom", gen: func(r *vm.Rand) ([]byte, []prefix) {
 			return wbuf(pk.VarInt(2), pk.Identifier("minecraft:a"), pk.Boolean(true), pk.NBT(sample), pk.Identifier("minecraft:b"), pk.Boolean(false)), []prefix{{0, "registry-length"}}
-		}, run: func(in []byte) error { _, err := codec.ReadFrom(rd(in)); return err }})
+		}, dec: func() func(io.Reader) error {
+			return func(src io.Reader) error { _, err := codec.ReadFrom(src); return err } // one registry object for the whole run
+		}})
 		es = append(es, entry{name: "Registry[" + name + "].ReadTagsFrom", gen: func(r *vm.Rand) ([]byte, []prefix) {
 			return wbuf(pk.VarInt(2), pk.Identifier("minecraft:t1"), pk.VarInt(2), pk.VarInt(0), pk.VarInt(0), pk.Identifier("minecraft:t2"), pk.VarInt(0)), []prefix{{0, "tag-count"}, {14, "tag-id-count"}}
-		}, run: func(in []byte) error {
-			// a registry with one entry so that id 0 is valid
-			codec.ReadFrom(rd(wbuf(pk.VarInt(1), pk.Identifier("minecraft:a"), pk.Boolean(true), pk.NBT(sample))))
-			_, err := codec.ReadTagsFrom(rd(in))
-			return err
+		}, dec: func() func(io.Reader) error {
+			return func(src io.Reader) error {
+				// a registry with one entry so that id 0 is valid
+				codec.ReadFrom(rd(wbuf(pk.VarInt(1), pk.Identifier("minecraft:a"), pk.Boolean(true), pk.NBT(sample))))
+				_, err := codec.ReadTagsFrom(src)
+				return err
+			}
 		}})
 	}
 	addReg("ChatType", &regs.ChatType, registry.ChatType{})
 	addReg("DamageType", &regs.DamageType, registry.DamageType{MessageID: "x", Scaling: "never"})
 	addReg("Dimension", &regs.DimensionType, registry.Dimension{Effects: "minecraft:overworld", MonsterSpawnLightLevel: nbt.RawMessage{Type: nbt.TagInt, Data: []byte{0, 0, 0, 7}}})
 	addReg("RawMessage", &regs.WorldGenBiome, map[string]any{"temperature": float32(0.5)})
+	for i := range es {
+		if es[i].run == nil {
+			d := es[i].dec
+			es[i].run = func(in []byte) error { return d()(rd(in)) }
+		}
+	}
 	return es
 }
 
@@ -432,6 +483,7 @@ func fuzzEntry(c *vm.Ctx, r *vm.Rand, e *entry) {
 			in := append(append([]byte{}, fill...), valid[w:]...)
 			exec(c, e, in, "fixed-width-prefix")
 		}
+		fixedWidthCounts(c, e, valid, w)
 	}
 	// hostile VarInt written at every offset (first 96 bytes exhaustively, sampled beyond)
 	var offs []int
@@ -770,12 +822,19 @@ func inconsistentSizes(c *vm.Ctx, r *vm.Rand) {
 
 // ---- command dispatcher
 
-func buildGraph(r *vm.Rand) (*command.Graph, []string) {
+// buildGraph: with typeable set, the literals are words over the alphabet of the exhaustive lines ({a, b, ab, ba}:
+// every node of the graph can then be spelled, siblings may be prefixes of each other or equal); otherwise
+// command-like words. ran is told how many parsed values a handler received (root + one per node walked).
+func buildGraph(r *vm.Rand, typeable bool, ran func(args int)) (*command.Graph, []string) {
 	g := command.NewGraph()
-	h := func(ctx context.Context, args []command.ParsedData) error { return nil }
+	h := func(ctx context.Context, args []command.ParsedData) error { ran(len(args)); return nil }
 	var words []string
+	vocab := []string{"me", "help", "list", "uuids", "tp", "a", "say"}
+	if typeable {
+		vocab = []string{"a", "b", "ab", "ba"}
+	}
 	lit := func() string {
-		w := []string{"me", "help", "list", "uuids", "tp", "a", "say"}[r.Intn(7)]
+		w := vocab[r.Intn(len(vocab))]
 		words = append(words, w)
 		return w
 	}
@@ -833,13 +892,27 @@ func buildGraph(r *vm.Rand) (*command.Graph, []string) {
 }
 
 func checkCommands(c *vm.Ctx, r *vm.Rand, exhaustive bool) {
-	g, words := buildGraph(r)
+	typeable := exhaustive || r.Bool()
+	deepest := 0
+	g, words := buildGraph(r, typeable, func(args int) { deepest = max(deepest, args) })
 	tryLine := func(line string) {
 		c.Inflight("command " + fmt.Sprintf("%q", line))
 		c.Guard("command/Execute", func() any { return map[string]any{"line": line, "graph_words": words} }, func() { _ = g.Execute(context.Background(), line) })
 		c.Eval(vm.HashStr("cmd", line), len(line) > 0)
 	}
+	defer func() {
+		// how far below the root the lines got (parsed values handed to a handler: the root's, then one per node)
+		how := map[bool]string{true: "exhaustive", false: "random"}[exhaustive]
+		if deepest >= 2 {
+			c.Cover("command." + how + ".handler-ran")
+		}
+		if deepest >= 3 {
+			c.Cover("command." + how + ".handler-ran-below-first-node")
+		}
+	}()
 	alpha := []byte("ab \t\"\\")
+	// whitespace as the dispatcher's two notions of it see it: strings.TrimSpace (Unicode) and the word parser (ASCII)
+	spaces := []string{" ", "  ", "\t", "", "\n", "\r", "\v", "\f", "\u00a0", "\u0085", " \u00a0", "\u2003"}
 	if exhaustive {
 		var rec func(prefix []byte, depth int)
 		rec = func(prefix []byte, depth int) {
@@ -865,14 +938,22 @@ func checkCommands(c *vm.Ctx, r *vm.Rand, exhaustive bool) {
 			case 2:
 				parts = append(parts, string(r.Bytes(r.Intn(4))))
 			default:
-				b := make([]byte, r.Intn(6))
-				for k := range b {
-					b[k] = alpha[r.Intn(len(alpha))]
+				var b []byte
+				for k := r.Intn(6); k > 0; k-- {
+					if r.Intn(4) == 0 {
+						b = append(b, spaces[r.Intn(len(spaces))]...)
+					} else {
+						b = append(b, alpha[r.Intn(len(alpha))])
+					}
 				}
 				parts = append(parts, string(b))
 			}
 		}
-		tryLine(strings.Join(parts, []string{" ", "  ", "\t", ""}[r.Intn(4)]))
+		line := strings.Join(parts, spaces[r.Intn(len(spaces))])
+		if r.Intn(4) == 0 {
+			line = spaces[r.Intn(len(spaces))] + line + spaces[r.Intn(len(spaces))]
+		}
+		tryLine(line)
 	}
 	c.Cover("command.random")
 }
@@ -993,13 +1074,9 @@ type pingHandler struct {
 	*server.PingInfo
 }
 
-type nullGame struct{}
-
-func (nullGame) AcceptPlayer(string, [16]byte, *user.PublicKey, []user.Property, int32, *mcnet.Conn) {}
-
 // hostileClient sends mutated handshake / login-start packets to the real server gate.
 func hostileClient(c *vm.Ctx, r *vm.Rand) {
-	srv := &server.Server{ListPingHandler: pingHandler{server.NewPlayerList(5), server.NewPingInfo("x", 767, chat.Text("m"), nil)}, LoginHandler: &server.MojangLoginHandler{Threshold: []int{-1, 0, 64}[r.Intn(3)]}, ConfigHandler: &server.Configurations{Registries: registry.NewNetworkCodec()}}
+	srv := &server.Server{ListPingHandler: pingHandler{server.NewPlayerList(5), server.NewPingInfo("x", 767, chat.Text("m"), nil)}, LoginHandler: &server.MojangLoginHandler{Threshold: []int{-1, 0, 64}[r.Intn(3)]}, ConfigHandler: &server.Configurations{Registries: registry.NewNetworkCodec()}, GamePlay: countGame{new(atomic.Int32)}}
 	var script [][]byte
 	hs := wbuf(pk.VarInt(0), pk.VarInt(767), pk.String("host"), pk.UnsignedShort(25565), pk.VarInt(2))
 	ls := wbuf(pk.VarInt(0), pk.String("player"), pk.UUID{})
@@ -1039,14 +1116,18 @@ func hostileClient(c *vm.Ctx, r *vm.Rand) {
 		c.Guard("live/server", wit, func() { srv.AcceptConn(mcnet.WrapConn(b)) })
 	}()
 	go func() {
+		// net.Pipe has no buffer: what the server answers (set compression, profile, disconnect) is drained while
+		// the frames go out, or both ends would sit in Write; the last answer gets 50 ms, then the client hangs up
+		drained := make(chan struct{})
+		go func() { defer close(drained); io.Copy(io.Discard, a) }()
 		for _, f := range script {
 			a.SetWriteDeadline(time.Now().Add(2 * time.Second))
 			if _, err := a.Write(f); err != nil {
 				break
 			}
 		}
-		a.SetReadDeadline(time.Now().Add(500 * time.Millisecond))
-		io.Copy(io.Discard, a)
+		a.SetReadDeadline(time.Now().Add(50 * time.Millisecond))
+		<-drained
 		a.Close()
 	}()
 	select {
@@ -1068,21 +1149,44 @@ func run(c *vm.Ctx) {
 	c.EnableSpinWatch("spin", 20)
 	nStates := len(block.StateList)
 	es := entries(nStates, 63)
-	r := c.Rand("fuzz")
+	coverHook, shapeSeq, jsonShapeSeq = c.Cover, c.Shard*5, c.Shard
+	section := sectionTimer(c)
+	r, rr := c.Rand("fuzz"), c.Rand("fuzz-reused")
 	rounds := c.Scale(128, 3200)
+	var reusedCPU float64
+	perEntry := map[string]float64{}
+	defer func() {
+		if os.Getenv("VERIF_TIMING") != "" {
+			for k, v := range perEntry {
+				fmt.Fprintf(os.Stderr, "ENTRY %6.2f %s\n", v, k)
+			}
+		}
+	}()
 	for i := 0; i < rounds; i++ {
 		for ei := range es {
 			e := &es[ei]
 			if strings.HasPrefix(e.name, "Chunk.") && strings.Contains(e.name, "24") && i%8 != 0 {
 				continue // big inputs: every 8th round
 			}
+			t0 := vm.CPUSeconds()
 			fuzzEntry(c, r, e)
+			perEntry[e.name] += vm.CPUSeconds() - t0
+		}
+		if i%8 == 1 {
+			t0 := vm.CPUSeconds()
+			for ei := range es {
+				if e := &es[ei]; !(strings.HasPrefix(e.name, "Chunk.") && strings.Contains(e.name, "24")) || i%16 == 1 {
+					fuzzEntryReused(c, rr, e) // second pass: used receiver, plain io.Reader
+				}
+			}
+			reusedCPU += vm.CPUSeconds() - t0
 		}
 		if i == 0 {
 			v, _ := es[3].gen(r)
 			c.Sample("decoder-input", map[string]any{"decoder": es[3].name, "valid_hex": vm.Hex(v)})
 		}
 	}
+	section("fuzz (of which the used-receiver pass: " + fmt.Sprintf("%.1f", reusedCPU) + " s)")
 	// huge declared element counts (Ary with any prefix type, arrays inside chunks): an error, promptly
 	if c.Shard == 0 {
 		hugeArrays(c)
@@ -1090,23 +1194,29 @@ func run(c *vm.Ctx) {
 	if c.Shard == 1%c.NShards {
 		bigPayloads(c)
 	}
+	section("huge+big")
 	sr := c.Rand("sizes")
 	for i := 0; i < c.Scale(400, 8000); i++ {
 		inconsistentSizes(c, sr)
 	}
+	section("sizes")
 	wr := c.Rand("wrong-data-length")
 	for i := 0; i < c.Scale(200, 4000); i++ {
 		wrongDataLength(c, wr)
 	}
+	section("wrong-data-length")
 	cr := c.Rand("commands")
 	for i := 0; i < c.Scale(40, 800); i++ {
 		checkCommands(c, cr, i%10 == 0)
 	}
-	lr := c.Rand("live")
+	section("commands")
+	lr, lsr := c.Rand("live"), c.Rand("live-server")
 	for i := 0; i < c.Scale(160, 4000); i++ {
 		hostileServer(c, lr)
 		hostileClient(c, lr)
+		serverSession(c, lsr, []string{"status", "config", "encryption", "config"}[i%4], c.Shard+i/4)
 	}
+	section("live")
 	mr := c.Rand("managed")
 	for i := 0; i < c.Scale(3000, 80000); i++ {
 		managedBot(c, mr)
@@ -1114,4 +1224,5 @@ func run(c *vm.Ctx) {
 	for i := 0; i < c.Scale(300, 6000); i++ {
 		hostileEncryption(c, mr)
 	}
+	section("managed+encryption")
 }
